@@ -4,6 +4,7 @@ import FastorModel.Proofs.PermuteOdometer
 import FastorModel.Proofs.PermuteLabels
 import FastorModel.Proofs.Transpose
 import FastorModel.Generated.C14Kernels
+import FastorModel.Proofs.TransposeLeaf
 /-
 # C14 — permute, permutation and transpose move every element to its permuted position
 
@@ -117,6 +118,51 @@ example : (blockedWrites (fun k => k) (fun _ _ _ => 0) (fun _ _ _ => 0) 9 11 8 1
     Proof per kernel: `decide` on lane tokens + naturality (`Proofs/Intrinsics.lean`: every intrinsic commutes with
     mapping a function over the lanes; `Intr.of_tokens`). -/
 theorem intrinsic_leaf_kernels : C14K.AllKernels := C14K.all_kernels
+
+/-- **transpose_correct with any admissible leaf** — the blocked nest is correct whatever `_transpose_dispatch` runs, as
+    long as that leaf leaves the transposed block in `pack_out` (`LeafOK`): same conclusions as `transpose_correct` -/
+theorem transpose_correct_any_leaf (leaf : (Nat → α) → List (Nat × α)) (a m : Nat → α) (g1 g2 : Nat → Nat → Nat → α)
+    (M N V nR nC : Nat) (hV : 0 < V) (hR : 0 < nR) (hC : 0 < nC) (hleaf : LeafOK leaf (V * nC) (V * nR)) :
+    (∀ i j, i < M → j < N → applyWrites (blockedWritesWith leaf a g1 g2 M N V nR nC) m (j * M + i) = a (i * N + j)) ∧
+    (∀ p, p < N * M → ∃ w ∈ blockedWritesWith leaf a g1 g2 M N V nR nC, w.1 = p) ∧
+    (∀ p, N * M ≤ p → applyWrites (blockedWritesWith leaf a g1 g2 M N V nR nC) m p = m p) := by
+  have h := blockedWritesWith_exact leaf a g1 g2 M N V nR nC hV hR hC hleaf
+  refine ⟨?_, ?_, ?_⟩
+  · intro i j hi hj
+    rw [(applyWrites_of_exact h m (j * M + i)).1 (digits_lt hj hi), spec_at a M N i j hi]
+  · intro p hp
+    exact ⟨(p, _), lastWrite_some_mem ((h p).1 hp), rfl⟩
+  · intro p hp
+    exact (applyWrites_of_exact h m p).2 (by omega)
+
+/-- the float/double builds: `_transpose<T,M,N>` for ALL `M N` with the translated intrinsic kernel as leaf, in the
+    block shapes in which the library dispatches to it — float under AVX/AVX2 (`V = 8`, 8x8 kernel) and AVX-512
+    (`V = 16`, 16x16 kernel), double under AVX/AVX2 (`V = 4`: 4x4 kernel by default, the 8x8 kernel with both block
+    macros 2) and AVX-512 (`V = 8`, 8x8 kernel) -/
+theorem transpose_correct_intrinsic_leaf (z : α) (a m : Nat → α) (g1 g2 : Nat → Nat → Nat → α) (M N i j : Nat)
+    (hi : i < M) (hj : j < N) :
+    applyWrites (blockedWritesWith (C14K.k_float8_avx z) a g1 g2 M N 8 1 1) m (j * M + i) = a (i * N + j) ∧
+    applyWrites (blockedWritesWith (C14K.k_float8_avx2 z) a g1 g2 M N 8 1 1) m (j * M + i) = a (i * N + j) ∧
+    applyWrites (blockedWritesWith (C14K.k_float16_avx512 z) a g1 g2 M N 16 1 1) m (j * M + i) = a (i * N + j) ∧
+    applyWrites (blockedWritesWith (C14K.k_double4_avx z) a g1 g2 M N 4 1 1) m (j * M + i) = a (i * N + j) ∧
+    applyWrites (blockedWritesWith (C14K.k_double4_avx2 z) a g1 g2 M N 4 1 1) m (j * M + i) = a (i * N + j) ∧
+    applyWrites (blockedWritesWith (C14K.k_double8_avx z) a g1 g2 M N 4 2 2) m (j * M + i) = a (i * N + j) ∧
+    applyWrites (blockedWritesWith (C14K.k_double8_avx2 z) a g1 g2 M N 4 2 2) m (j * M + i) = a (i * N + j) ∧
+    applyWrites (blockedWritesWith (C14K.k_double8_avx512 z) a g1 g2 M N 8 1 1) m (j * M + i) = a (i * N + j) := by
+  have key : ∀ (K : (Nat → α) → List (Nat × α)) (n V b : Nat) (hV : 0 < V) (hb : 0 < b) (hn : V * b = n)
+      (hK : ∀ pa, Intr.finalCells (K pa) (n * n) = Intr.transposed pa n),
+      applyWrites (blockedWritesWith K a g1 g2 M N V b b) m (j * M + i) = a (i * N + j) := by
+    intro K n V b hV hb hn hK
+    have hl : LeafOK K (V * b) (V * b) := by rw [hn]; exact leafOK_of_kernel K n hK
+    exact (transpose_correct_any_leaf K a m g1 g2 M N V b b hV hb hb hl).1 i j hi hj
+  exact ⟨key _ 8 8 1 (by omega) (by omega) rfl (fun pa => (C14K.k_float8_avx_correct z pa).1),
+         key _ 8 8 1 (by omega) (by omega) rfl (fun pa => (C14K.k_float8_avx2_correct z pa).1),
+         key _ 16 16 1 (by omega) (by omega) rfl (fun pa => (C14K.k_float16_avx512_correct z pa).1),
+         key _ 4 4 1 (by omega) (by omega) rfl (fun pa => (C14K.k_double4_avx_correct z pa).1),
+         key _ 4 4 1 (by omega) (by omega) rfl (fun pa => (C14K.k_double4_avx2_correct z pa).1),
+         key _ 8 4 2 (by omega) (by omega) rfl (fun pa => (C14K.k_double8_avx_correct z pa).1),
+         key _ 8 4 2 (by omega) (by omega) rfl (fun pa => (C14K.k_double8_avx2_correct z pa).1),
+         key _ 8 8 1 (by omega) (by omega) rfl (fun pa => (C14K.k_double8_avx512_correct z pa).1)⟩
 
 /-! ## permute -/
 
